@@ -159,7 +159,7 @@ func (e *Encoder) encode(geom orb.Geometry, srid int) error {
 	}
 
 	var b []byte
-	if e.order == binary.LittleEndian {
+	if isLittleEndian(e.order) {
 		b = []byte{1}
 	} else {
 		b = []byte{0}
@@ -192,6 +192,25 @@ func (e *Encoder) encode(geom orb.Geometry, srid int) error {
 	}
 
 	panic("unsupported type")
+}
+
+// isLittleEndian reports which byte order mark goes with the given order.
+// It asks the order itself: binary.ByteOrder is an interface, and values other
+// than binary.LittleEndian write little endian too (binary.NativeEndian on most
+// machines, types wrapping binary.LittleEndian). The mark must say what the
+// order's Put methods do to the rest of the encoding.
+func isLittleEndian(order binary.ByteOrder) bool {
+	if order == binary.LittleEndian {
+		return true
+	}
+
+	if order == binary.BigEndian {
+		return false
+	}
+
+	var buf [2]byte
+	order.PutUint16(buf[:], 1)
+	return buf[0] == 1
 }
 
 func (e *Encoder) writeTypePrefix(t uint32, l int, srid int) error {
